@@ -109,6 +109,8 @@ def run(ctx: Ctx):
 
     res.rule("BLOCK-INDEPENDENT", "the HALS NNLS inner solver's row update is an exact coordinate minimisation: in the affine-form domain of rules/affine.py the stored row does not depend on the old row after cancellation, for every combination of the sparsity / ridge coefficients (a damped step can increase the penalised objective)", floor=4)
     ctx.guarded(block_independent, ctx, "BLOCK-INDEPENDENT", "tensorly.solvers.nnls.hals_nnls", "V", ["sparsity_coefficient is not None", "ridge_coefficient is not None"])
+    res.rule("ACCEPT-EVALUATED", "a line-search step that returns (model ..., error) returns the model the error was evaluated on: between the evaluation `error = f(..., model, ...)` and the return that hands both back, no part of that model is written (clipped, re-bound, stored into)", floor=1)
+    ctx.guarded(accept_evaluated, ctx)
 
 
 def update_degree(ctx: Ctx):
@@ -391,3 +393,72 @@ def ridge_live(ctx: Ctx):
                     ctx.finding("RIDGE-LIVE", f, c, f"`{src(c)[:70]}` reaches `{src(x)[:50]}` in `{g.name}` with no argument that depends on `self.{attr}` (the helper's ridge parameter keeps its default): this block minimises the unpenalised fit while the others minimise fit + ridge, so the sweep is not block-coordinate descent on one objective", construct=f"{f.name}: {src(c)[:60]} solves without self.{attr}")
         if n_sites == 0:
             raise AnalysisError(f"RIDGE-LIVE: no least-squares solve found in {q}; the driver table is stale")
+
+
+# ---------------------------------------------------------------------------------
+# ACCEPT-EVALUATED: the accepted iterate is the evaluated one
+# ---------------------------------------------------------------------------------
+def accept_evaluated(ctx: Ctx):
+    """In every `line_step` method of the PARAFAC2 module: a return `(M1, M2, ..., E)` whose E is
+    the single-definition result of a call that takes some Mi as arguments must not be preceded
+    (after that call) by a write to such an Mi.  The acceptance test `E < old error` is a statement
+    about the evaluated model; a model modified afterwards has an error nobody computed, and the
+    monotone-accept clause (an accepted jump does not increase the objective) is void."""
+    res = ctx.res
+    mod = ctx.repo.module("tensorly.decomposition._parafac2")
+    funcs = [f for f in ctx.repo.functions.values() if f.module is mod and f.name == "line_step"]
+    if not funcs:
+        raise AnalysisError("ACCEPT-EVALUATED: no `line_step` method left in tensorly.decomposition._parafac2; cannot decide")
+    n = 0
+    for f in funcs:
+        # positions
+        chains = {}
+
+        def index(block, outer):
+            for i, st in enumerate(block):
+                here = [(block, i)] + outer
+                chains[id(st)] = here
+                for fld in ("body", "orelse", "finalbody"):
+                    sub = getattr(st, fld, None)
+                    if isinstance(sub, list) and sub and isinstance(sub[0], ast.stmt) and not isinstance(st, (ast.FunctionDef, ast.ClassDef)):
+                        index(sub, here)
+
+        index(f.node.body, [])
+        order = {id(st): k for k, st in enumerate(x for x in ast.walk(f.node) if isinstance(x, ast.stmt))}
+        rets = [r for r in own_scope_nodes(f.node) if isinstance(r, ast.Return) and isinstance(r.value, ast.Tuple) and len(r.value.elts) >= 2]
+        for r in rets:
+            names = [e.id for e in r.value.elts if isinstance(e, ast.Name)]
+            for e_name in names:
+                defs = [s_ for s_ in own_scope_nodes(f.node) if isinstance(s_, ast.Assign) and len(s_.targets) == 1 and is_name(s_.targets[0], e_name) and isinstance(s_.value, ast.Call)]
+                if len(defs) != 1:
+                    continue
+                d = defs[0]
+                args = {a.id for a in d.value.args if isinstance(a, ast.Name)} | {k.value.id for k in d.value.keywords if isinstance(k.value, ast.Name)}
+                model = [m for m in names if m != e_name and m in args]
+                if not model:
+                    continue
+                n += 1
+                # statements executed after d and before r on r's own chain
+                bad = None
+                for block, i in chains.get(id(r), []):
+                    for st in block[:i]:
+                        if st.lineno <= d.lineno:
+                            continue
+                        for x in ast.walk(st):
+                            tgt = None
+                            if isinstance(x, (ast.Assign, ast.AugAssign)):
+                                for t in x.targets if isinstance(x, ast.Assign) else [x.target]:
+                                    b = t
+                                    while isinstance(b, (ast.Subscript, ast.Attribute)):
+                                        b = b.value
+                                    if isinstance(b, ast.Name) and b.id in model:
+                                        tgt = (b.id, x)
+                            elif isinstance(x, ast.Call) and isinstance(x.func, ast.Attribute) and isinstance(x.func.value, ast.Name) and x.func.value.id in model and x.func.attr in ("append", "insert", "pop", "extend", "__setitem__", "clear", "reverse", "sort"):
+                                tgt = (x.func.value.id, x)
+                            if tgt and bad is None:
+                                bad = tgt
+                res.instance("ACCEPT-EVALUATED", f"{f.qname}: return ({', '.join(names)})", sample={"error": e_name, "evaluated_on": model, "evaluation": src(d)[:80], "written_after_evaluation": src(bad[1])[:80] if bad else None, "ok": bad is None})
+                if bad is not None:
+                    ctx.finding("ACCEPT-EVALUATED", f, bad[1], f"{f.name}: `{src(bad[1])[:80]}` changes `{bad[0]}` after `{src(d)[:70]}` evaluated it and before `{src(r)[:60]}` hands both back: the acceptance test was made on a model that is not the one kept, so an accepted jump may increase the objective and the returned error is not the error of the returned factors", construct=f"{f.name}: {bad[0]} written between evaluation and return")
+    if n == 0:
+        raise AnalysisError("ACCEPT-EVALUATED: no return of the form (model ..., error) with the error evaluated on the model was found in line_step; cannot decide")
